@@ -814,7 +814,15 @@ def rule_comm(prop, repo):
             R.fail_closed("%s:comm:%s" % (prop, w), "%s not found" % w)
             continue
         rv = repo.tb(b).return_value()
-        ok, _ = shared.forwards(repo, b, lambda rv: rv[0] == "call" and rv[1].name == "mul" and [strip(a) for a in rv[2]] == [("param", 2), ("param", 1)], "smul_rev")
+        def rev(rv):
+            if rv[0] == "call" and rv[1].name == "mul" and [strip(a) for a in rv[2]] == [("param", 2), ("param", 1)]:
+                return True
+            # … or straight to the inner ladder on the wrapped values, wrapped again: Wrapper(point.0 * scalar.0)
+            if rv[0] == "agg" and isinstance(rv[1], str) and len(rv[3]) == 1:
+                c = strip(rv[3][0])
+                return c[0] == "call" and c[1].name == "mul" and "crate::groups::G<" in c[1].i and [strip(a) for a in c[2]] == [("field", ("param", 2), 0), ("field", ("param", 1), 0)]
+            return False
+        ok, _ = shared.forwards(repo, b, rev, "smul_rev")
         R.check(ok, "%s:comm:%s" % (prop, w), "%s is not `other * self`: %s" % (w, show(rv, maxdepth=2)), b.file_line(), w, sample={"impl": w, "is": "other * self"})
     for w in ("<crate::G1 as core::ops::Mul<crate::Fr>>::mul", "<crate::G2 as core::ops::Mul<crate::Fr>>::mul"):
         b = F.bodies.get(w)
